@@ -184,6 +184,7 @@ func runC15(ch chooser.Chooser, st *Stats) *Outcome {
 	if res.Switches > 0 {
 		st.Inc("probe:context_switch_inside_quote_or_split", 1)
 	}
+	st.Inc("sched:threads_detached", int64(res.Detached))
 	if v := schedViolation(res); v != nil {
 		out.Violation = v
 		return out
